@@ -139,9 +139,17 @@ func parsePlugins(ifi rawInterface, maxInterval time.Duration, epoch time.Time) 
 			base = *p.Prefix
 		}
 
-		prefix, err := netip.ParsePrefix(base)
+		prefix, err := parseIPPrefix(base)
 		if err != nil {
-			return nil, err
+			return nil, fmt.Errorf("failed to parse PREF64 prefix %q: %v", base, err)
+		}
+
+		// Only these prefix lengths can be encoded, per:
+		// https://datatracker.ietf.org/doc/html/rfc8781#section-4.
+		switch prefix.Bits() {
+		case 96, 64, 56, 48, 40, 32:
+		default:
+			return nil, fmt.Errorf("PREF64 prefix %q must have a length of 96, 64, 56, 48, 40, or 32 bits", base)
 		}
 
 		plugins = append(plugins, plugin.NewPREF64(prefix, maxInterval))
